@@ -236,6 +236,10 @@ def e_add_many(c):
         items.append(items[0])                       # the same tensor object twice in the list
     if c.rng.random() < 0.2:
         items = items + [c.tt() for _ in range(int(c.rng.integers(12, 20)))]      # long sums (periodic rounding inside)
+    if c.rng.random() < 0.35:
+        # "some of them may be int/float"
+        for _ in range(int(c.rng.integers(1, 3))):
+            items.insert(int(c.rng.integers(1, len(items) + 1)), _pick(c, [2.5, -1, 0.5, 3]))
     lst = c.own(items, shallow=True)
     kw = {}
     if c.rng.random() < 0.6:
@@ -636,9 +640,13 @@ def e_ind_tt_to_qtt(c):
 
 
 def _box(c, d):
-    k = _pick(c, ['scalar', 'list', 'array'])
+    k = _pick(c, ['scalar', 'list', 'array', 'unit', 'sym'])
     if k == 'scalar':
         return -1.5, 2.0
+    if k == 'unit':
+        return _pick(c, [(0.0, 1.0), (c.own(np.zeros(d)), c.own(np.ones(d)))])        # exactly the unit box
+    if k == 'sym':
+        return _pick(c, [(-1.0, 1.0), (c.own(-np.ones(d)), c.own(np.ones(d)))])       # exactly [-1, 1]
     a = -1.0 - c.rng.random(d)
     b = 1.0 + c.rng.random(d)
     if k == 'list':
@@ -687,7 +695,8 @@ def e_cdf_confidence(c):
 
 @entry()
 def e_cdf_getter(c):
-    x = c.own(c.rng.standard_normal(7)) if c.rng.random() < 0.7 else c.own(c.rng.standard_normal(7).tolist())
+    u = c.rng.random()
+    x = c.own(c.rng.standard_normal(7)) if u < 0.4 else (c.own(np.sort(c.rng.standard_normal(7))) if u < 0.8 else c.own(c.rng.standard_normal(7).tolist()))
     z = c.rng.standard_normal(5)
     return Call('cdf_getter', teneva.cdf_getter, [x], post=lambda f: [f(z), f(0.0)])
 
@@ -1093,6 +1102,9 @@ def e_cross(c):
         mutable.add('cache')
         if c.rng.random() < 0.5:
             kw['m_cache_scale'] = int(_pick(c, [1, 5, 1000]))
+        if c.rng.random() < 0.4:
+            kw['nswp'] = int(c.rng.integers(6, 10))          # many sweeps: the cache serves most requests
+            kw['m_cache_scale'] = 1000
     if c.rng.random() < 0.4:
         kw['I_vld'] = c.idx(5)
         kw['y_vld'] = c.own(T[tuple(kw['I_vld'].T)])
